@@ -41,6 +41,11 @@ class Node(State):
     child: "Node | None" = None
 
 
+class Outer[T](State):
+    inner: G[T]
+    many: Sequence[T] = ()
+
+
 def fn(a):
     return a
 
@@ -245,7 +250,45 @@ def terms(depth, rng, budget):
     return out
 
 
+def check_specialisation(t):
+    """The same term as the *type argument* of a generic State (G[t], Outer[t]): resolution of type parameters."""
+    try:
+        spec, outer = G[t.ann], Outer[t.ann]
+    except Exception as e:  # noqa
+        return f"G[{t.name}] cannot be specialised: {e!r}"
+    for v in t.good:
+        if not conf(t, v):
+            continue
+        try:
+            inst = spec(item=v)
+            o = outer(inner=inst, many=[v])
+        except Exception as e:  # noqa
+            return f"G[{t.name}] / Outer[{t.name}]: conforming item {v!r} was rejected ({type(e).__name__}: {str(e)[:80]})"
+        if not _eq(inst.item, t.canon(v)) and not isinstance(inst.item, MappingProxyType):
+            return f"G[{t.name}](item={v!r}) stored {inst.item!r}"
+        if o.inner is not inst and o.inner != inst:
+            return f"Outer[{t.name}] stored a different inner value"
+    for v in t.bad:
+        if conf(t, v):
+            continue
+        try:
+            inst = spec(item=v)
+        except Exception:  # noqa
+            pass
+        else:
+            return f"G[{t.name}](item={v!r}): non-conforming item was accepted and stored as {inst.item!r}"
+        try:
+            o = outer(inner=spec(item=t.good[0]), many=[v])
+        except Exception:  # noqa
+            continue
+        return f"Outer[{t.name}](many=[{v!r}]): non-conforming element was accepted"
+    return None
+
+
 def check_term(t):
+    p = check_specialisation(t) if t.name not in ("Any",) else None
+    if p:
+        return p
     try:
         cls = type("S", (State,), {"__annotations__": {"attr": t.ann}, "__module__": __name__})
     except Exception as e:  # noqa
